@@ -171,7 +171,7 @@ func evalC16(c c16Case, rec *hx.Rec) error {
 		buf := append([]byte(nil), in...)
 		var z1, z2 fr.Element
 		z1 = hx.FrSetRaw(new(big.Int).Sub(ref.R, big.NewInt(0x1234567))) // dirty receivers: every limb non-zero, and
-		z2 = hx.FrSetRaw(new(big.Int).Rsh(ref.R, 1))                      // different in the two calls
+		z2 = hx.FrSetRaw(new(big.Int).Rsh(ref.R, 1))                     // different in the two calls
 		var ok1, ok2 bool
 		var e1, e2 error
 		if perr := hx.Try(func() { ok1, e1 = dec(&z1, buf) }); perr != nil {
